@@ -231,6 +231,11 @@ func (v *ScriptView) writeModifySQLForAColumn(attrTypeOld, attrTypeNew *sysl.Typ
 					tableName, attrName, datatype))
 			}
 		}
+		if isAutoIncrementNew {
+			// an autoincrement column is a bigint (bigserial): that is the type a column
+			// referencing it must take, exactly as in the creation script
+			datatype = bigIntConst
+		}
 	}
 	visitedAttributes[tableName+"."+attrName] = datatype
 	return primaryKeyChanged, isPrimaryKeyOld
